@@ -149,6 +149,15 @@ def compare_matrices(ctx, fname, s1, s2, kw, psi_neg, keep, dC, MC, dP, MP, labe
                 ctx.violation("engine-cell-mismatch", cell=[i, j], c=a, python=b, **wit)
                 return False
     ctx.count("c04_engine_cells_compared", r * c)
+    if psi_neg and m is None and not kw.get("use_pruning"):
+        # "yields the same matrix": the two engines skip the same end cells (they break ties between equally good
+        # relaxed end points the same way)
+        negc = [(i, j) for i in range(r + 1) for j in range(c + 1) if MC[i][j] == -1]
+        negp = [(i, j) for i in range(r + 1) for j in range(c + 1) if MP[i][j] == -1]
+        ctx.count("c04_neg_marking_sets_compared")
+        if negc != negp:
+            ctx.violation("neg-marking-differs-between-engines", c_cells=negc[:12], python_cells=negp[:12], **wit)
+            return False
     dcut = (inn.ival(m) if keep else m) if m is not None else None
     if dcut is not None and (dtwmon.near_threshold(dP, dcut, 1e-6) or dtwmon.near_threshold(dC, dcut, 1e-6)):
         return True
